@@ -62,44 +62,45 @@ def tcOf (r : RenderReq) : TCfg := { rx := r.bcfg.rx, q := r.bcfg.q, oracle := r
 
 def cfgOf (r : RenderReq) (booleans : List Str) (node : Node) : ECfg :=
   { tc := tcOf r, tab := r.tab, pyBuiltins := r.pyBuiltins, talesExc := r.talesExc, existsExc := r.existsExc, excParents := r.excParents,
-    booleanAttrs := booleans, src := normalizeNewlines r.src, macros := [], body := node, libs := [] }
+    booleanAttrs := booleans, src := textBody r, macros := [], body := node, libs := [] }
 
 def env0Of (r : RenderReq) : Env :=
   { own := r.vars ++ [(lit "repeat", .repeatDict), (lit "target_language", .none)], root := [], rcontext := [], repeats := [], frames := [{}] }
 
 theorem C20_render_text_expr_text (r : RenderReq) (pre post text : Str) (te : TExpr) (tokE : Tok) (v : Val) (t : Str) (x1 x2 : XState)
     (ht : r.textMode = true) (hq : r.bcfg.q.textModeIdentify = false) (hi : r.bcfg.implicitI18nTranslate = false)
-    (hl : r.libs = []) (hn : hasInterp (normalizeNewlines r.src) = true)
-    (hparts : compileInterp (tcOf r) 64 { str := normalizeNewlines r.src, pos := 0 } true false = .ok [.lit pre, .expr te tokE text, .lit post])
+    (hl : r.libs = []) (hn : hasInterp (textBody r) = true)
+    (hparts : compileInterp (tcOf r) 64 { str := textBody r, pos := 0 } true false = .ok [.lit pre, .expr te tokE text, .lit post])
     (hsup : te.hasUnsupported = false)
     (hev : ∀ booleans node, evalT (cfgOf r booleans node) [] (env0Of r) 61 te .none none
         { log := #[], tlog := #[], token := some ((Tok.strip tokE).pos, (Tok.strip tokE).str.length) } = .ok v x1)
     (hconv : ∀ booleans node, convPartX (cfgOf r booleans node) (env0Of r) .none none true v x1 = .ok (some t) x2) :
     render r = .out (pre ++ (t ++ (post ++ []))) x2.log x2.tlog 0 := by
   have hdec : (tcOf r).decodeInterp = false := by simp [tcOf, ht]
-  have hparts' : compileInterp (tcOf r) 64 { str := normalizeNewlines r.src, pos := 0 } true (tcOf r).decodeInterp =
+  have hparts' : compileInterp (tcOf r) 64 { str := textBody r, pos := 0 } true (tcOf r).decodeInterp =
       .ok [.lit pre, .expr te tokE text, .lit post] := by rw [hdec]; exact hparts
+  have hb : (if r.xmlMode.getD (isXmlDoc r.src) = true then r.src else normalizeNewlines r.src) = textBody r := rfl
   unfold render
-  simp only [ht, Bool.not_true, Bool.and_false, if_false, Bool.false_eq_true]
+  simp only [ht, Bool.not_true, Bool.and_false, if_false, Bool.false_eq_true, hb]
   rw [C20_build_interp (c := _) (src := _) (hq := by simpa using hq) (hn := hn)]
   simp only [Bool.false_eq_true, if_false, hi]
   -- the compile pass accepts the program
-  have hf : 8 * (normalizeNewlines r.src).length + 64 = (8 * (normalizeNewlines r.src).length + 61) + 3 := by omega
+  have hf : 8 * (textBody r).length + 64 = (8 * (textBody r).length + 61) + 3 := by omega
   rw [hf]
   have hpu : partsUnsupported [.lit pre, .expr te tokE text, .lit post] = false := by
     simp [partsUnsupported, hsup]
-  have hcc := compileCheck_interp_ok (tcOf r) r.strict _ Esc.none _ (8 * (normalizeNewlines r.src).length + 61) hparts' hpu
+  have hcc := compileCheck_interp_ok (tcOf r) r.strict _ Esc.none _ (8 * (textBody r).length + 61) hparts' hpu
   simp only [tcOf, ht, Bool.not_true] at hcc
   rw [hcc]
   simp only [hl, List.foldlM_nil, pure, Except.pure]
   have fin : ∀ booleans : List Str,
       (match eval { tc := { rx := r.bcfg.rx, q := r.bcfg.q, oracle := r.oracle, decodeInterp := false }, tab := r.tab, pyBuiltins := r.pyBuiltins,
                     talesExc := r.talesExc, existsExc := r.existsExc, excParents := r.excParents, booleanAttrs := booleans,
-                    src := normalizeNewlines r.src, macros := [],
-                    body := .seq [.interpolation (.interp { str := normalizeNewlines r.src, pos := 0 } .none none true true false)],
+                    src := textBody r, macros := [],
+                    body := .seq [.interpolation (.interp { str := textBody r, pos := 0 } .none none true true false)],
                     libs := [] }
-              [] (8 * (normalizeNewlines r.src).length + 61 + 3)
-              (.seq [.interpolation (.interp { str := normalizeNewlines r.src, pos := 0 } .none none true true false)])
+              [] (8 * (textBody r).length + 61 + 3)
+              (.seq [.interpolation (.interp { str := textBody r, pos := 0 } .none none true true false)])
               { streams := [[]], env := { own := r.vars ++ [(lit "repeat", .repeatDict), (lit "target_language", .none)], root := [],
                                           rcontext := [], repeats := [], frames := [{}] }, x := {}, handled := 0 } with
        | .ok () s => Outcome.out (s.streams.getLast?.getD []) s.x.log s.x.tlog s.handled
@@ -107,8 +108,8 @@ theorem C20_render_text_expr_text (r : RenderReq) (pre post text : Str) (te : TE
        | .raised ex s => Outcome.raised ex [] #[] #[]) = Outcome.out (pre ++ (t ++ (post ++ []))) x2.log x2.tlog 0 := by
     intro booleans
     have he := eval_text_interp
-      (cfgOf r booleans (.seq [.interpolation (.interp { str := normalizeNewlines r.src, pos := 0 } .none none true true false)])) []
-      (8 * (normalizeNewlines r.src).length + 61) { str := normalizeNewlines r.src, pos := 0 } tokE pre post text te
+      (cfgOf r booleans (.seq [.interpolation (.interp { str := textBody r, pos := 0 } .none none true true false)])) []
+      (8 * (textBody r).length + 61) { str := textBody r, pos := 0 } tokE pre post text te
       { streams := [[]], env := env0Of r, x := {}, handled := 0 } [] [] v t x1 x2 hparts' rfl (hev _ _) (hconv _ _)
     simp only [cfgOf, tcOf, env0Of, ht, Bool.not_true] at he
     rw [he]
